@@ -343,3 +343,41 @@ impl<H: Host> Emulator<H> {
         }
     }
 }
+
+/// Verification hooks. Compiled only with `--cfg rustzx_verif`; they expose internal state
+/// (CPU, frame clock, RAM banks, paging latch) to external checking harnesses and are not
+/// part of the public API.
+#[cfg(rustzx_verif)]
+impl<H: Host> Emulator<H> {
+    pub fn verif_cpu(&mut self) -> &mut Z80 {
+        &mut self.cpu
+    }
+
+    pub fn verif_frame_clocks(&self) -> usize {
+        self.controller.frame_clocks
+    }
+
+    pub fn verif_set_frame_clocks(&mut self, clocks: usize) {
+        self.controller.frame_clocks = clocks;
+    }
+
+    pub fn verif_total_frames(&self) -> u64 {
+        self.controller.verif_total_frames
+    }
+
+    pub fn verif_ram_page(&self, page: u8) -> &[u8] {
+        self.controller.memory.ram_page_data(page)
+    }
+
+    pub fn verif_ram_page_mut(&mut self, page: u8) -> &mut [u8] {
+        self.controller.memory.ram_page_data_mut(page)
+    }
+
+    pub fn verif_refresh_memory_dependent_devices(&mut self) {
+        self.controller.refresh_memory_dependent_devices();
+    }
+
+    pub fn verif_paging(&self) -> (u8, bool, u8) {
+        self.controller.verif_paging()
+    }
+}
